@@ -56,7 +56,7 @@ func vJoinSetup(timed bool) *vJoinEnv {
 	if timed {
 		opts.Timeout = time.Duration(vNondetI64("timeout"))
 		vAssume(opts.Timeout > 0)
-		opts.TimeoutInaccuracy = uint(vChoose("inacc", 3)) * 25 // 0 (default 25), 25, 50
+		opts.TimeoutInaccuracy = []uint{0, 25, 50, 100}[vChoose("inacc", 4)] // 0: default 25; 100: the ticker period equals the Timeout
 	}
 	e.t0 = vNow()
 	d, err := New(opts)
